@@ -7,7 +7,7 @@ Import ListNotations.
 (* three processes on two forms, interleaved; 0 is killed while linking, 1 while Cython writes the .c *)
 Definition ex_tr : list label :=
   [Spawn 0 0; Spawn 1 0; Spawn 2 1; Step 0; Step 1; Step 2] ++
-  repeat (Step 0) 18 ++ [Kill 0] ++ repeat (Step 1) 9 ++ [Kill 1] ++ repeat (Step 2) 30.
+  repeat (Step 0) 19 ++ [Kill 0] ++ repeat (Step 1) 10 ++ [Kill 1] ++ repeat (Step 2) 30.
 
 (* hypothesis of [recovery]: pid 3 is fresh after that history; its conclusion, computed *)
 Example ex_fresh : procs (run New orc_ref ex_tr init) 3 = None.
@@ -29,7 +29,7 @@ Example ex_finished : exists q, procs (run New orc_ref ex_tr init) 2 = Some q /\
 Proof. eexists. vm_compute. split; reflexivity. Qed.
 
 (* hypothesis of [race_liveness] *)
-Example ex_steps : rank PImport <= steps_of 2 ex_tr.
+Example ex_steps : rank PMkdir <= steps_of 2 ex_tr.
 Proof. vm_compute. lia. Qed.
 
 (* [Inv] also holds in directories that were damaged from outside in ways dlopen rejects: an empty
@@ -55,14 +55,14 @@ Example ex_oracle : orc_ref Header = Crash.
 Proof. reflexivity. Qed.
 
 (* tests of the executable fault-history semantics used by the tie *)
-Definition cold_trace := [1; 2; 10; 11; 12; 13; 14; 20; 21; 22; 23; 24; 30; 31; 32; 33; 34; 40; 41; 42; 43; 44; 50; 51; 52].
+Definition cold_trace := [3; 1; 2; 10; 11; 12; 13; 14; 20; 21; 22; 23; 24; 30; 31; 32; 33; 34; 40; 41; 42; 43; 44; 50; 51; 52].
 Example ex_predict_new :
   predict New orc_ref 1 [EKill 0 (PWrite So W2); ERun 0; ERun 0] =
-    [([3], [1; 0; 0; 0; 0], []); ([0], [1; 1; 0; 0; 0], cold_trace); ([0], [1; 1; 0; 0; 0], [1])].
+    [([3], [1; 0; 0; 0; 0], []); ([0], [1; 1; 0; 0; 0], cold_trace); ([0], [1; 1; 0; 0; 0], [3; 1])].
 Proof. vm_compute. reflexivity. Qed.
 Example ex_predict_old :
   predict Old orc_ref 1 [EKill 0 (PWrite So W2); ERun 0] =
-    [([3], [0; 3; 1; 1; 1], []); ([2], [0; 3; 1; 1; 1], [1])].
+    [([3], [0; 3; 1; 1; 1], []); ([2], [0; 3; 1; 1; 1], [3; 1])].
 Proof. vm_compute. reflexivity. Qed.
 Example ex_predict_sched :
   predict New orc_ref 1 [ESched [0; 0] [(0, PWrite So W2); (1, PReplace); (0, PReplace)]] =
@@ -75,5 +75,16 @@ Proof. vm_compute. auto. Qed.
 Example ex_predict_damage :
   predict New orc_ref 1 [ERun 0; EDmg So (Some Empty); ERun 0; EDmg So (Some Header); ERun 0] =
     [([0], [0; 1; 0; 0; 0], cold_trace); ([], [0; 2; 0; 0; 0], []); ([0], [0; 1; 0; 0; 0], cold_trace);
-     ([], [0; 3; 0; 0; 0], []); ([2], [0; 3; 0; 0; 0], [1])].
+     ([], [0; 3; 0; 0; 0], []); ([2], [0; 3; 0; 0; 0], [3; 1])].
+Proof. vm_compute. reflexivity. Qed.
+
+(* cold start: the cache directory does not exist in [init]; with the idempotent mkdir the schedule that
+   breaks check-then-create (cold_start_refuted) ends well for both processes *)
+Example ex_cold_start_new :
+  map (outcome_of (solo New orc_ref FUEL (solo New orc_ref FUEL (run New orc_ref tr_cold_start init) 0) 1)) [0; 1]
+  = [Some (Ok 0); Some (Ok 1)].
+Proof. vm_compute. reflexivity. Qed.
+(* and check-then-create alone (no second process) is fine: the defect needs the race *)
+Example ex_cold_start_solo :
+  outcome_of (solo NewCC orc_ref FUEL (step NewCC orc_ref init (Spawn 0 0)) 0) 0 = Some (Ok 0).
 Proof. vm_compute. reflexivity. Qed.
